@@ -10,17 +10,26 @@ GEN_GROUPS = ["Stats"]
 
 MODS = ["public", "private", "protected", "static", "final", "abstract", "synchronized"]
 NAMES = ["getUserName", "setValue", "findAllByIdAndName", "parseJSONData", "run", "a", "toURL", "process2Items", "x1", "save_all",
-         "handleHTTPRequest", "isValid", "of", "MAX", "updateUser", "user", "userRepositoryImpl", "sha256Hex", "v2", "get", "Item9"]
+         "handleHTTPRequest", "isValid", "of", "MAX", "updateUser", "user", "userRepositoryImpl", "sha256Hex", "v2", "get", "Item9",
+         "findUser", "findAll", "createOrder", "createInvoice", "updateOrder"]
+
+
+FAMILIES = [["findUser", "findAll", "findAllByIdAndName"], ["reserveItem", "reserveBatch"], ["sendWelcome", "sendReceipt", "sendAll"],
+            ["trackParcel", "trackPallet"], ["computeNet", "computeGross"], ["createOrder", "createInvoice"]]
 
 
 def rand_model(rng):
     clzs = []
     decl = []
-    for i in range(rng.choice([1, 2, 3, 4])):
+    services = rng.random() < 0.25      # several service classes whose methods share a first word (the service lifecycle summary)
+    for i in range(rng.choice([2, 3, 4]) if services else rng.choice([1, 2, 3, 4])):
         pk = rng.choice(["p", "q.r"])
-        cn = rng.choice(["A", "StringUtil", "UserService", "MyUtils", "Utility", "Repo", "futile"])
+        cn = rng.choice(["A", "StringUtil", "UserService", "OrderService", "MyUtils", "Utility", "Repo", "futile"])
+        if services:
+            cn = ["UserService", "OrderService", "PayService", "MailService"][i]
         fns = []
-        for j in range(rng.choice([0, 1, 2, 3, 5])):
+        fam = FAMILIES[(i + rng.choice([0, 0, 1])) % len(FAMILIES)] if services else None
+        for j in range(rng.choice([2, 3, 4]) if services else rng.choice([0, 1, 2, 3, 5])):
             mods = rng.sample(MODS, rng.choice([0, 1, 2, 3, 7]))
             annos = []
             r = rng.random()
@@ -30,7 +39,7 @@ def rand_model(rng):
                 annos.append({"Name": "CheckForNull"})
             elif r < 0.35:
                 annos.append({"Name": "Override"})
-            fn = {"Name": rng.choice(NAMES), "ReturnType": rng.choice(["void", "String", "A", "Repo"]),
+            fn = {"Name": (rng.choice(fam) if fam and rng.random() < 0.8 else rng.choice(NAMES)), "ReturnType": rng.choice(["void", "String", "A", "Repo"]),
                   "Modifiers": mods, "Annotations": annos, "IsReturnNull": rng.random() < 0.2,
                   "Parameters": [{"TypeValue": "int", "TypeType": "a"}] * rng.choice([0, 1, 4, 5]),
                   "Position": {"StartLine": 3 + j * 4, "StopLine": 5 + j * 4}, "FunctionCalls": []}
@@ -183,3 +192,14 @@ ASSUMPTIONS = ["method names are ASCII (strcase indexes bytes); the oracle's wor
                "IsReturnNull / Modifiers as delivered by the identifier pass are inputs here; their extraction from source is covered by the Java front-end checks"]
 TRUSTED = ["yourbasic/radix (bytewise lexicographic sort)", "iancoleman/strcase (modelled for ASCII)", "gonum stat (not compared)"]
 WITNESSES = {}
+
+
+def view(o):
+    """the Lean model covers the summary counts and the nullable list; the rest of evaluate.json is compared between runs by C08 only"""
+    if isinstance(o, dict) and "full" in o:
+        return {k: v for k, v in o.items() if k != "full"}
+    return o
+
+
+def view_det(o):
+    return o
